@@ -5,7 +5,7 @@ import Kvass.Driver.Util
 namespace Kvass.Driver.Store
 open Kvass Kvass.Store Kvass.Driver
 
-/-- line: id lenNew hadOld tmp0Len(-1) | observed: mainKind(0 none,1 old,2 new,3 prefix k,4 other) mainK tmpKind tmpK loaded(0 empty,1 old,2 new,3 err,4 other) -/
+/-- line: id lenNew hadOld leftover | observed: mainKind(0 none,1 old,2 new,3 prefix k,4 other) mainK tmpKind tmpK loaded(0 empty,1 old,2 new,3 err,4 other) -/
 def handle (line : String) : String :=
   match parseInts line with
   | .error e => s!"bad-op {e}"
@@ -14,6 +14,7 @@ def handle (line : String) : String :=
       let id ← tok
       let lenNew ← tokNat
       let hadOld ← tokBool
+      let leftover ← tokBool     -- a longer temp file of an earlier interrupted save is lying around
       let mainKind ← tokNat; let mainK ← tokNat
       let tmpKind ← tokNat; let tmpK ← tokNat
       let loaded ← tokNat
@@ -27,13 +28,17 @@ def handle (line : String) : String :=
       let tmpK := sc tmpK
       let data : Bytes := (List.range lenM).map (· + 1)
       let old : Bytes := [0]
+      let junk : Bytes := [4000000, 4000001]
       let blob (kind k : Nat) : Option (Option Bytes) :=
         match kind with
-        | 0 => some none | 1 => some (some old) | 2 => some (some data) | 3 => some (some (data.take k)) | _ => none
+        | 0 => some none | 1 => some (some old) | 2 => some (some data) | 3 => some (some (data.take k))
+        | 5 => some (some junk) | _ => none
       let dec : Bytes → Option Nat := fun b => if b == old then some 1 else if b == data then some 2 else none
-      let fs0 : FS := ⟨if hadOld then some old else none, none, none⟩
+      let fs0 : FS := ⟨if hadOld then some old else none, if leftover then some junk else none, none⟩
+      -- property on the observation alone: the next start resumes the previous or the new assignment
+      let okObs0 := if hadOld then loaded == 1 || loaded == 2 else loaded == 0 || loaded == 2
       match saveProtocol with
-      | none => pure s!"case {id} match=0 impl=ok model=protocol tags unknown-protocol"
+      | none => pure s!"case {id} match=0 impl={if okObs0 then "ok" else "resume"} model=protocol tags unknown-protocol"
       | some ops =>
         let states := crashStates data ops fs0
         let inModel := match blob mainKind mainK, blob tmpKind tmpK with
